@@ -225,7 +225,53 @@ func (w *c15Walk) msg(d *dproto.MessageDescriptor, ref protoreflect.MessageDescr
 // foreign keys: names declared in other messages (filled per case)
 func (w *c15Walk) setForeign(ks []string) { w.foreign = ks }
 
+// c15DeepChain: a chain of N distinct message types, each referring to the next (no recursion involved).
+func c15DeepChain(c *h.Ctx) {
+	c.Run("deep-chain", c.N(10, 30), func(cs *h.Case) {
+		n := []int{20, 99, 100, 101, 102, 130, 250, 400, 64, 180}[cs.I%10]
+		var sb strings.Builder
+		sb.WriteString("syntax = \"proto3\";\noption go_package = \"verif/pb\";\n")
+		for i := 0; i < n; i++ {
+			if i+1 < n {
+				fmt.Fprintf(&sb, "message M%d { int32 v = 1; M%d next = %d; repeated M%d more = %d; }\n", i, i+1, 2+i%5, i+1, 9+i%3)
+			} else {
+				fmt.Fprintf(&sb, "message M%d { int32 v = 1; string leaf = 2; }\n", i)
+			}
+		}
+		sb.WriteString("service Svc { rpc M(M0) returns (M0); }\n")
+		text := sb.String()
+		cs.Info("chain-length", n)
+		fd, _, err := pref.Compile("verif.proto", map[string]string{"verif.proto": text})
+		if err != nil {
+			panic("harness: " + err.Error())
+		}
+		svc, err := dproto.NewDescritorFromContent(context.Background(), "verif.proto", text, nil)
+		if err != nil {
+			cs.Viol("desc:parse-error-on-valid-schema", "err", err, "chain-length", n)
+			return
+		}
+		md := svc.LookupMethodByName("M")
+		if md == nil || md.Input() == nil || md.Input().Type() != dproto.MESSAGE {
+			cs.Viol("desc:method-type", "method", "M")
+			return
+		}
+		w := &c15Walk{cs: cs, seen: map[*dproto.MessageDescriptor]protoreflect.FullName{}}
+		w.msg(md.Input().Message(), fd.Messages().ByName("M0"), "M:in")
+		if w.bad {
+			return
+		}
+		if w.msgs < n {
+			cs.Viol("desc:deep-chain:messages-reached", "got", w.msgs, "want", n)
+			return
+		}
+		cs.Cover("deep_chain_ok")
+		cs.CoverN("deep_chain_messages", w.msgs)
+		cs.Distinct(fmt.Sprintf("chain-%d", n))
+	})
+}
+
 func runC15(c *h.Ctx) {
+	defer c15DeepChain(c)
 	c.Run("schemas", c.N(4000, 150000), func(cs *h.Case) {
 		pkg := []string{"", "vp", "a.b.c"}[cs.R.Intn(3)]
 		cfg := gen.PCfg{Unpacked: true, MaxDepth: 1 + cs.R.Intn(3), MaxFields: 1 + cs.R.Intn(9), Nested: cs.R.Chance(70), SameNames: cs.R.Chance(70), BigNums: cs.R.Chance(50), Enums: true, Package: pkg, JSONNames: cs.R.Bool()}
